@@ -8,7 +8,7 @@
 
    [holds] is the property on these observations, independent of the model's path: the only way a
    request may reach the directory is inside a Call that the breaker — whose state the monitor
-   re-derives from the hooks alone, with the breaker monitor of Corr_C15 — had to admit at that
+   re-derives from the hooks alone, with the breaker monitor of Corr_C15 — had to let through at that
    moment; every answer must be reported to the breaker exactly then (its effects are checked by the
    breaker monitor); an operation may end with the breaker's error only where a Call was rejected,
    and then without a request; any other result must be exactly what the direct-style reading of
